@@ -11,8 +11,9 @@ side with the implementation's answers.
   the implementation's, byte for byte  → `MODELDIFF` otherwise;
 * spec part: only what the property statement determines — membership, strictly ascending rows,
   weights, counts, `false`/unchanged for an existing edge, `Err`/documented panic + unchanged for
-  out-of-range endpoints, `from_sorted_edges` Ok ⇔ strictly sorted and then equal to the graph built
-  edge by edge; for `List`: parallel edges kept, indices stay valid, insertion order → `SPECFAIL`.
+  out-of-range endpoints and for `add_node*` on a structure that is full for its index type (the next `dump`
+  observes "unchanged"; a wrapped index — the repaired finding D31 — is a SPECFAIL like any other),
+  `from_sorted_edges` Ok ⇔ strictly sorted and then equal to the graph built edge by edge; for `List`: parallel edges kept, indices stay valid, insertion order → `SPECFAIL`.
   Not judged (the statement is silent): `Csr` edge ids, the order/multiplicity of
   `Csr<Undirected>::edge_references` (D7 belongs to C06), readers called with `a ≥ node_count`
   (`panic` or the empty answer are both accepted; the code answers empty for `a = node_count`).
@@ -214,15 +215,13 @@ def stepCsr (d : DState) (req : List String) (impl : String) : DState × String 
       | .error (a, b) => (d, verdict spec s!"err {a} {b}" impl)
   | ["clone"] => (d, verdict (expect "ok" impl) "ok" impl)
   | ["add_node", w] =>
-    let (g', i) := g.addNode (int w)
+    -- the specification: the fresh index `n`, or — on a graph that is `full` for the index type — the
+    -- documented panic and an unchanged graph (finding D31 was: a wrapped, already-live index instead)
+    let (g', want) := match g.addNodeCap s.modulus (int w) with
+      | some (g', i) => (g', toString i) | none => (g, "panic")
     match CsrM.addNode s (int w) with
-    | some (s', mi) =>
-      -- open finding D31: beyond the index type's capacity the returned index wraps around
-      if s.modulus != 0 && i ≥ s.modulus && impl == toString (i % s.modulus) && mi == i % s.modulus then
-        ({ d with csr := s', sg := g' }, s!"KNOWN D31 Csr::add_node beyond the index capacity returned the wrapped index {impl} for node {i}")
-      else
-      ({ d with csr := s', sg := g' }, verdict (expect (toString i) impl) (toString mi) impl)
-    | none => ({ d with sg := g' }, verdict (expect (toString i) impl) "panic" impl)
+    | some (s', mi) => ({ d with csr := s', sg := g' }, verdict (expect want impl) (toString mi) impl)
+    | none => ({ d with sg := g' }, verdict (expect want impl) "panic" impl)
   | ["add_edge", a, b, w] =>
     let (g', r) := g.addEdge (nat a) (nat b) (int w)
     let want := match r with | .ok x => showBool x | .error _ => "panic"
@@ -347,19 +346,22 @@ def stepList (d : DState) (req : List String) (impl : String) : DState × String
     ({ d with adj := AdjM.new s.modulus, ml := {} }, verdict (expect "ok" impl) "ok" impl)
   | ["clone"] => (d, verdict (expect "ok" impl) "ok" impl)
   | ["add_node"] | ["add_node_cap", _] | ["build_add_node"] =>
-    let (s', mi) := AdjM.addNode s
-    let (g', i) := g.addNode
-    if s.modulus != 0 && i ≥ s.modulus && impl == toString (i % s.modulus) && mi == i % s.modulus then
-      ({ d with adj := s', ml := g' }, s!"KNOWN D31 adj::List::add_node beyond the index capacity returned the wrapped index {impl} for node {i}")
-    else
-    ({ d with adj := s', ml := g' }, verdict (expect (toString i) impl) (toString mi) impl)
+    -- the specification: the fresh index `n`, or — on a list that is `full` for the index type — the
+    -- documented panic and an unchanged list (finding D31 was: a wrapped, already-live index instead)
+    let (g', want) := match g.addNodeCap s.modulus with
+      | some (g', i) => (g', toString i) | none => (g, "panic")
+    match AdjM.addNode s with
+    | some (s', mi) => ({ d with adj := s', ml := g' }, verdict (expect want impl) (toString mi) impl)
+    | none => ({ d with ml := g' }, verdict (expect want impl) "panic" impl)
   | ["add_node_from", es] =>
     match parseNI es with
     | none => (d, "SPECFAIL bad request (successor list)")
     | some es =>
-      let (s', mi) := AdjM.addNodeFromEdges s es
-      let (g', i) := g.addNodeFrom es
-      ({ d with adj := s', ml := g' }, verdict (expect (toString i) impl) (toString mi) impl)
+      let (g', want) := match g.addNodeFromCap s.modulus es with
+        | some (g', i) => (g', toString i) | none => (g, "panic")
+      match AdjM.addNodeFromEdges s es with
+      | some (s', mi) => ({ d with adj := s', ml := g' }, verdict (expect want impl) (toString mi) impl)
+      | none => ({ d with ml := g' }, verdict (expect want impl) "panic" impl)
   | [f, a, b, w] =>
     let (a, b, w) := (nat a, nat b, int w)
     match f with
